@@ -310,6 +310,15 @@ def check_bundled_providers(acc, prop='C01'):
          b'fa=1&fb=2&fc=3', {'fa': '1', 'fb': '2', 'fc': 3}),
         ('postdata-list', lambda: PostDataMiddleware(['fa', 'fb']), ['fa', 'fb'], 'POST', '', b'fa=x&fb=y', {'fa': 'x', 'fb': 'y'}),
         ('cookie-named', lambda: SignedCookieMiddleware(secret_key=b'k', arg_name='session'), ['session'], 'GET', '', b'', None),
+        # every documented way of naming the parameters: one string, a generator, a tuple, a set of one
+        ('getparam-string', lambda: GetParamMiddleware('qword'), ['qword'], 'GET', 'qword=w', b'', {'qword': 'w'}),
+        ('getparam-generator', lambda: GetParamMiddleware(n for n in ['qa', 'qb']), ['qa', 'qb'], 'GET', 'qa=1&qb=2', b'',
+         {'qa': '1', 'qb': '2'}),
+        ('getparam-tuple-dup', lambda: GetParamMiddleware(('qa', 'qb', 'qa')), ['qa', 'qb'], 'GET', 'qa=1&qb=2', b'',
+         {'qa': '1', 'qb': '2'}),
+        ('postdata-string', lambda: PostDataMiddleware('fword'), ['fword'], 'POST', '', b'fword=w', {'fword': 'w'}),
+        ('postdata-generator', lambda: PostDataMiddleware(n for n in ['fa', 'fb']), ['fa', 'fb'], 'POST', '', b'fa=x&fb=y',
+         {'fa': 'x', 'fb': 'y'}),
         ('scriptroot-named', lambda: ScriptRootMiddleware('mount'), ['mount'], 'GET', '', b'', {'mount': ''}),
     ]
     for label, mkmw, names, method, query, body, want in cases:
@@ -471,7 +480,7 @@ def shard(tier, i, n, seed):
     return acc
 
 
-BUNDLED_ITEMS = 6 * 2 * 3
+BUNDLED_ITEMS = 11 * 2 * 3
 
 
 def space_size(tier):
